@@ -233,3 +233,59 @@ Lemma io_element u (dec : bool) cpu : g_IO cpu = true -> g_Memory cpu = UserMem 
 Proof. intros E Em. user_mem cpu E. cbv_struct_in Em. subst. destruct dec; log_norm; repeat split. Qed.
 Lemma block_step_pc u k (dec : bool) cpu : g_PC (block_step u k dec cpu) = g_PC cpu.
 Proof. open_cpu cpu. destruct k, dec; log_norm; try reflexivity; destruct_ifs; log_norm; reflexivity. Qed.
+
+(* ---- C12: the only run-time check of Step that could fail is the index into the mode-0 overlay ---- *)
+Lemma overlay_index_in_range pc data a : is16 pc -> is16 a -> data <> [] ->
+  let d := im0_overlay pc data in
+  (a <? im0data_start d) || (a >? im0data_end d) = false ->
+  in_range (u16 (a - im0data_start d)) (im0data_data d) = true.
+Proof.
+  intros Hpc Ha Hne d Hin. unfold d, im0_overlay in *. cbv_struct. cbv_struct_in Hin.
+  assert (Hl : 1 <= len_Z data).
+  { unfold len_Z. destruct data; [congruence|]. cbn [length]. lia. }
+  rewrite !u16_mod in *.
+  set (x := (len_Z data - 1) mod 65536) in *.
+  assert (Hx : 0 <= x < 65536) by (apply Z.mod_pos_bound; lia).
+  assert (Hx2 : x <= len_Z data - 1) by (unfold x; apply Z.mod_le; lia).
+  unfold is16 in *. unfold in_range.
+  destruct (Z_lt_dec (pc + x) 65536) as [Hs|Hs].
+  - rewrite (Z.mod_small (pc + x)) in Hin by lia.
+    assert (pc <= a <= pc + x) by lia. rewrite Z.mod_small by lia. lia.
+  - assert (E : (pc + x) mod 65536 = pc + x - 65536).
+    { symmetry. apply Z.mod_unique with (q := 1); lia. }
+    rewrite E in Hin. lia.
+Qed.
+(* hence reading through the overlay never takes the panic branch *)
+Lemma overlay_read_no_panic w pc data a : is16 pc -> is16 a -> data <> [] ->
+  trace (fst (wget w (Im0Mem (im0_overlay pc data)) a)) = trace w \/
+  exists v, trace (fst (wget w (Im0Mem (im0_overlay pc data)) a)) = EvRd a v :: trace w.
+Proof.
+  intros Hpc Ha Hne. cbv beta iota zeta delta [wget].
+  destruct ((a <? im0data_start (im0_overlay pc data)) || (a >? im0data_end (im0_overlay pc data))) eqn:E.
+  - right. eexists. reflexivity.
+  - rewrite (overlay_index_in_range pc data a Hpc Ha Hne E). left. reflexivity.
+Qed.
+(* LD A,I / LD A,R flags: S and Z from the value, H = N = 0, P/V = IFF2, C preserved, bits 5,3 from the value *)
+Lemma ldair_bits v (i : bool) f : is8 v -> is8 f ->
+  let r := ldair_flags v i f in
+  Z.testbit r 7 = Z.testbit v 7 /\ Z.testbit r 6 = (v =? 0) /\ Z.testbit r 5 = Z.testbit v 5 /\ Z.testbit r 4 = false /\
+  Z.testbit r 3 = Z.testbit v 3 /\ Z.testbit r 2 = i /\ Z.testbit r 1 = false /\ Z.testbit r 0 = Z.testbit f 0.
+Proof.
+  intros Hv Hf. destruct i; cbv beta iota zeta delta [ldair_flags b2z FPV FC sz53 FZ]; repeat split; benum2 v f.
+Qed.
+Lemma fetch_m1_ir cpu : g_IR (fst (fetch_m1 cpu)) = mk_Register (g_IR_Hi cpu) (r_tick (g_IR_Lo cpu)).
+Proof. cbv beta iota zeta delta [fetch_m1 fetch8 rd mem_get]. cbv_struct. reflexivity. Qed.
+Lemma fetch8_ir cpu : g_IR (fst (fetch8 cpu)) = g_IR cpu.
+Proof. cbv beta iota zeta delta [fetch8 rd mem_get]. cbv_struct. reflexivity. Qed.
+Lemma r_tick_bits r : is8 r -> Z.testbit (r_tick r) 7 = Z.testbit r 7 /\ Z.land (r_tick r) 127 = (Z.land r 127 + 1) mod 128.
+Proof. intros Hr. unfold r_tick. split; [benum1 r | enum1 r]. Qed.
+
+Lemma degenerate_requests u cpu t :
+  try_interrupt u (s_IM cpu 0) (mk_Interrupt (Z.pos t) []) = (if g_IFF1 cpu then Some (s_IM cpu 0) else None) /\
+  try_interrupt u (s_IM cpu 2) (mk_Interrupt (Z.pos t) []) = (if g_IFF1 cpu then Some (s_IM cpu 2) else None) /\
+  try_interrupt u (s_IM cpu (-1)) (mk_Interrupt (Z.pos t) []) = None /\
+  try_interrupt u (s_IM cpu 3) (mk_Interrupt (Z.pos t) []) = None.
+Proof.
+  open_cpu cpu. unfold try_interrupt, NMI_type. cbn [Interrupt_Type Interrupt_Data]. change (Z.pos t =? 0) with false.
+  cbv_struct. destruct iff1; cbn [negb]; repeat split; reflexivity.
+Qed.
